@@ -27,6 +27,20 @@ import bubus.helpers as hlp  # noqa: E402
 from bubus import EventBus, BaseEvent  # noqa: E402
 
 BASE_TIME = dt.datetime(2026, 1, 1, tzinfo=dt.UTC)
+WALDIR = os.path.join(os.environ.get('TMPDIR', '/tmp'), f'bubus_verif_wal_{os.getpid()}')
+
+
+def py_expect_match(pred, e):
+    """must agree with `expectMatch` in lean/Bubus/Model/Step.lean; None = the predicate raises"""
+    if pred == 0:
+        return True
+    if pred == 1:
+        return e % 2 == 0
+    if pred == 2:
+        return e % 3 != 0
+    if pred == 3:
+        return None if e % 4 == 1 else True
+    return False
 
 
 class Rt:
@@ -49,7 +63,15 @@ class Rt:
         self.ninst = 0
         self.types = {}
         self.xtasks = []
-        self.nrec_progress = 0
+        self.keepalive = []
+        self.blocked = {}        # external task index -> (hang record kind, fields) while it is blocked in a bus call
+        self.xid = {}            # asyncio task -> external task index
+        self.next_expect = {}    # asyncio task -> handler index for the expect() it is about to call
+        self.nextra = 0          # extra (expect) handler indices allocated
+        self.cur_pe = {}         # asyncio task -> stack of (b, e) being processed
+        self.wal = {}            # bus idx -> list of lines
+        self.walseq = 0
+        self.walfaults = set()
 
     def now(self):
         return asyncio.get_event_loop().time()
@@ -59,6 +81,17 @@ class Rt:
         kw['t'] = self.now()
         self.log.append(kw)
         return kw
+
+
+class _NullRt:
+    """stands in between scenarios: records made by coroutines that are finalised late go nowhere"""
+    busidx = {}
+
+    def rec(self, kind, **kw):
+        return kw
+
+    def now(self):
+        return 0.0
 
 
 RT: Rt | None = None
@@ -95,6 +128,8 @@ def proc(bus=None):
         return f'I{st[-1]}'
     if t in RT.inst_of_task:
         return f'I{RT.inst_of_task[t]}'
+    if t in RT.xid:
+        return f'X{RT.xid[t]}'
     if bus is not None:
         return f'R{RT.busidx[bus]}'
     for b, i in RT.busidx.items():
@@ -150,7 +185,99 @@ class TQ(svc.CleanShutdownQueue):
         return item
 
 
+class TIdle(asyncio.Event):
+    """the bus's _on_idle flag, traced"""
+    bus = None
+
+    def set(self):
+        was = self.is_set()
+        super().set()
+        if not was:
+            RT.rec('idleSet', b=RT.busidx[self.bus], p=proc(self.bus), was=was)
+
+    def clear(self):
+        was = self.is_set()
+        super().clear()
+        RT.rec('idleClear', b=RT.busidx[self.bus], p=proc(self.bus), was=was)
+
+
+class FakeWalFile:
+    def __init__(self, b, fail_write):
+        self.b = b
+        self.fail_write = fail_write
+
+    async def __aenter__(self):
+        return self
+
+    async def __aexit__(self, *a):
+        return False
+
+    async def write(self, line):
+        await asyncio.sleep(0)
+        t = asyncio.current_task()
+        be = (RT.cur_pe.get(t) or [(self.b, -1)])[-1]
+        if self.fail_write:
+            RT.rec('walWrite', p=proc(RT.buses[self.b]), b=self.b, e=be[1], ok=False, why='write')
+            raise OSError('injected WAL write fault')
+        ok, why = True, ''
+        try:
+            back = BaseEvent.model_validate_json(line)
+            live = RT.evobj.get(be[1])
+            if live is None or back.event_id != live.event_id:
+                ok, why = False, 'id'
+            else:
+                a = back.model_dump(mode='json')
+                c = live.model_dump(mode='json')
+                for key in set(a) | set(c):
+                    if key == 'event_result_type':
+                        continue
+                    if a.get(key) != c.get(key):
+                        ok, why = False, f'field {key}'
+            if not line.endswith('\n') or '\n' in line[:-1]:
+                ok, why = False, 'not one line'
+        except Exception as ex:  # noqa: BLE001
+            ok, why = False, f'parse {type(ex).__name__}'
+        RT.wal.setdefault(self.b, []).append(line)
+        RT.rec('walWrite', p=proc(RT.buses[self.b]), b=self.b, e=be[1], ok=True, faithful=ok, why=why)
+
+
+async def fake_open_file(path, mode='r', encoding=None):
+    await asyncio.sleep(0)
+    b = int(str(path).rsplit('_', 1)[1].split('.')[0])
+    seq = RT.walseq
+    RT.walseq += 1
+    if (seq, 'open') in RT.walfaults or [seq, 'open'] in RT.sc.get('walfaults', []):
+        t = asyncio.current_task()
+        be = (RT.cur_pe.get(t) or [(b, -1)])[-1]
+        RT.rec('walWrite', p=proc(RT.buses[b]), b=b, e=be[1], ok=False, why='open')
+        raise OSError('injected WAL open fault')
+    return FakeWalFile(b, [seq, 'write'] in RT.sc.get('walfaults', []))
+
+
+svc.anyio.open_file = fake_open_file
+
+
 class TBus(EventBus):
+    def on(self, event_pattern, handler):
+        r = super().on(event_pattern, handler)
+        t = None
+        try:
+            t = asyncio.current_task()
+        except RuntimeError:
+            pass
+        if t is not None and t in RT.next_expect:
+            k = RT.next_expect.pop(t)
+            RT.hidx[(RT.busidx[self], id(handler))] = k
+            RT.hkind[k] = 'expect'
+            RT.keepalive.append(handler)   # ids of temporary handlers must not be reused within a scenario
+        return r
+
+    async def _run_loop(self):
+        try:
+            await super()._run_loop()
+        finally:
+            RT.rec('rlDone', b=RT.busidx[self], idle=bool(self._on_idle and self._on_idle.is_set()))
+
     def dispatch(self, event):
         e = eid(event)
         p = proc()
@@ -185,6 +312,9 @@ class TBus(EventBus):
             q = TQ(maxsize=self.event_queue.maxsize)
             q.bus = self
             self.event_queue = q
+            idle = TIdle()
+            idle.bus = self
+            self._on_idle = idle
         if not was_running and self._is_running:
             RT.rec('rlcreate', b=RT.busidx[self], p=proc(), holds=svc.holds_global_lock.get())
 
@@ -194,6 +324,7 @@ class TBus(EventBus):
         b = RT.busidx[self]
         RT.rec('peBegin', p=p, b=b, e=e)
         RT.act.setdefault((b, e), []).append(p)
+        RT.cur_pe.setdefault(asyncio.current_task(), []).append((b, e))
         ok = False
         try:
             r = await super().process_event(event, timeout)
@@ -204,6 +335,7 @@ class TBus(EventBus):
             raise
         finally:
             RT.act[(b, e)].pop()
+            RT.cur_pe[asyncio.current_task()].pop()
             if ok:
                 RT.rec('peEnd', p=p, b=b, e=e, snap=evsnap(event), all=briefsnap(), bus=bussnap(self))
 
@@ -243,7 +375,12 @@ def mk_types(sc):
     types = {}
     for name, spec in sc['types'].items():
         to = spec.get('timeout')
-        ns = {'__annotations__': {'event_timeout': float | None}, 'event_timeout': (to if to else 300.0), '__module__': __name__}
+        # 'none' = event_timeout None (no deadline at all); None = the library default (300 s, never reached here)
+        ns = {'__annotations__': {'event_timeout': float | None},
+              'event_timeout': (None if to == 'none' else (to if to else 300.0)), '__module__': __name__}
+        for fk, fv in (spec.get('payload') or {}).items():
+            ns['__annotations__'][fk] = object
+            ns[fk] = fv
         types[name] = type(name, (BaseEvent,), ns)
     return types
 
@@ -363,7 +500,7 @@ def make_handler(bi, k, h):
     return ha
 
 
-HORIZON = 60.0
+HORIZON = 30.0
 
 
 async def _await_event(ev):
@@ -372,8 +509,46 @@ async def _await_event(ev):
 
 async def ext_task(x, prog, slots):
     """an external (non-handler) task"""
+    RT.xid[asyncio.current_task()] = x
     for op in prog:
         o = op[0]
+        if o == 'stop':
+            b = RT.buses[op[1]]
+            clear = bool(op[2]) if len(op) > 2 else False
+            if b._is_running:
+                RT.rec('stopBegin', x=x, b=op[1], clear=clear)
+                t0 = RT.now()
+                await b.stop(clear=clear)
+                RT.rec('stopEnd', x=x, b=op[1], took=RT.now() - t0, bus=bussnap(b))
+            else:
+                RT.rec('stopNoop', x=x, b=op[1])
+                await b.stop(clear=clear)
+            continue
+        if o == 'cancelrl':
+            b = RT.buses[op[1]]
+            if b._runloop_task is not None and not b._runloop_task.done():
+                RT.rec('cancelRl', x=x, b=op[1])
+                b._runloop_task.cancel()
+            continue
+        if o == 'expect':
+            _, bi, key, pred, to = op
+            b = RT.buses[bi]
+            k = len(RT.sc['handlers']) + RT.nextra
+            RT.nextra += 1
+            RT.next_expect[asyncio.current_task()] = k
+
+            def include(ev, pred=pred):
+                m = py_expect_match(pred, eid(ev))
+                if m is None:
+                    raise ValueError('predicate raises')
+                return m
+            RT.rec('expectBegin', x=x, b=bi, key=key, h=k, pred=pred, timeout=to, bus=bussnap(b))
+            try:
+                got = await b.expect(key, include=include, timeout=to)
+                RT.rec('expectEnd', x=x, b=bi, got=eid(got), bus=bussnap(b))
+            except TimeoutError:
+                RT.rec('expectEnd', x=x, b=bi, got=None, bus=bussnap(b))
+            continue
         if o == 'dispatch':
             ev = mk_event(op[2])
             try:
@@ -401,6 +576,7 @@ async def ext_task(x, prog, slots):
             if ev is not None:
                 c = eid(ev)
                 RT.rec('xAwaitBegin', x=x, e=c)
+                RT.blocked[x] = ('xAwaitHang', {'x': x, 'e': c})
                 try:
                     r = await asyncio.wait_for(asyncio.shield(asyncio.ensure_future(_await_event(ev))), HORIZON)
                     RT.rec('xAwaitEnd', x=x, e=c, snap=evsnap(ev), same=(r is ev))
@@ -408,15 +584,20 @@ async def ext_task(x, prog, slots):
                     RT.rec('xAwaitHang', x=x, e=c)
                 except Exception as ex:
                     RT.rec('xAwaitRaise', x=x, e=c, why=type(ex).__name__)
+                finally:
+                    RT.blocked.pop(x, None)
         elif o == 'waitidle':
             b = RT.buses[op[1]]
             RT.rec('waitIdleBegin', x=x, b=op[1], bus=bussnap(b))
+            RT.blocked[x] = ('waitIdleHang', {'x': x, 'b': op[1]})
             try:
                 await asyncio.wait_for(b.wait_until_idle(), HORIZON)
                 RT.rec('waitIdleEnd', x=x, b=op[1], bus=bussnap(b),
                        hstat=[e.event_status for e in b.event_history.values()])
             except TimeoutError:
                 RT.rec('waitIdleHang', x=x, b=op[1])
+            finally:
+                RT.blocked.pop(x, None)
 
 
 async def quiesce():
@@ -433,7 +614,8 @@ async def quiesce():
 async def run_sc(sc):
     RT.types = mk_types(sc)
     for i, b in enumerate(sc['buses']):
-        bus = TBus(f'B{i}', parallel_handlers=b.get('parallel', False), max_history_size=b.get('maxh', 50))
+        bus = TBus(f'B{i}', parallel_handlers=b.get('parallel', False), max_history_size=b.get('maxh', 50),
+                   wal_path=(os.path.join(WALDIR, f'wal_{i}.jsonl') if b.get('wal') else None))
         RT.busidx[bus] = i
         RT.buses.append(bus)
     RT.rec('init', nb=len(RT.buses))
@@ -459,8 +641,14 @@ async def run_sc(sc):
         quiet = await quiesce()
         done = quiet and all(t.done() for t in tasks)
         if quiet and not done:
-            # tasks blocked although nothing moves: they will only end at their own horizon
-            await asyncio.sleep(HORIZON)
+            # nothing has moved for a second of virtual time (longer than every timeout in use) and a task is still
+            # blocked in a bus call: it hangs.  Record that and cancel it instead of waiting for the horizon.
+            for x, (kind, fields) in sorted(RT.blocked.items()):
+                RT.rec(kind, **fields)
+            for t in tasks:
+                t.cancel()
+            await asyncio.sleep(0)
+            done = True
     RT.rec('final', events={i: evsnap(e) for i, e in RT.evobj.items()}, buses=[bussnap(b) for b in RT.buses],
            sem=(svc._get_global_lock()._semaphore._value if svc._get_global_lock()._semaphore else 1),
            tasks_done=[t.done() for t in tasks])
@@ -521,5 +709,5 @@ def run_scenario(sc, budget=300_000, watchdog=20):
             pass
         asyncio.set_event_loop(None)
     log = RT.log
-    RT = None
+    RT = _NullRt()
     return {'sc': sc, 'log': log, 'err': err}
